@@ -60,7 +60,18 @@ def store_agreement(prog: Program):
         for co in cos:
             by_key.setdefault((co.co_name, co.co_firstlineno), []).append(co)
         funcs = list(m.functions.values()) + [f for c in m.classes.values() for f in c.methods.values()]
+        # the store sites are read from the source as parsed (the analysed copy is in canonical form, where e.g. a
+        # dictionary-filling loop has become a comprehension)
+        raw = {}
+        for n in ast.walk(ast.parse(m.source, filename=m.path)):
+            if isinstance(n, (ast.FunctionDef, ast.AsyncFunctionDef)):
+                raw[(n.name, n.lineno)] = n
         for f in funcs:
+            rnode = raw.get((f.node.name, f.node.lineno))
+            if rnode is None:
+                mism.append("%s.%s: definition not found in the parsed source" % (m.name, f.qualname))
+                continue
+            f = type("RawFn", (), {"node": rnode, "qualname": f.qualname})()
             first = min([d.lineno for d in f.node.decorator_list] + [f.node.lineno])
             cands = by_key.get((f.node.name, first)) or by_key.get((f.node.name, f.node.lineno)) or []
             if not cands:
